@@ -1,8 +1,24 @@
 """C15 — automated motif equation equals the exact bond-percolation expectation."""
 import json
+from fractions import Fraction
 
+from core.exact import rs
 from core.runner import Prop
 from . import mp_common as mp
+
+
+def exact_numeric(nodes, edges, root, u, p):
+    """brute force over all open-edge sets, in exact rationals"""
+    E, total = len(edges), Fraction(0)
+    for mask in range(1 << E):
+        A = [edges[i] for i in range(E) if mask >> i & 1]
+        w = p ** len(A) * (1 - p) ** (E - len(A))
+        if w:
+            for v in mp.comp_of(root, nodes, A):
+                if v != root:
+                    w *= u[v]
+            total += w
+    return total
 
 
 class C15(Prop):
@@ -53,7 +69,17 @@ class C15(Prop):
                 calls.append({"name": m["name"], "nodes": m["nodes"], "edges": m["edges"], "root": rng.choice(m["nodes"])})
             return {"kind": "seq", "calls": calls}
         nodes, edges = self._graph(rng, tier)
-        return {"kind": "one", "nodes": nodes, "edges": edges, "root": rng.choice(nodes)}
+        c = {"kind": "one", "nodes": nodes, "edges": edges, "root": rng.choice(nodes)}
+        # numeric evaluation points, including the ends of the admissible ranges: u exactly 0 or 1 at some vertices, phi 0 or 1
+        pts = []
+        for _ in range(2):
+            us = {}
+            for v in nodes:
+                r = rng.random()
+                us[str(v)] = "0" if r < 0.3 else "1" if r < 0.45 else rs(Fraction(rng.randint(1, 6), 7))
+            pts.append({"phi": rng.choice(["0", "1", "1/3", "1/2", "3/4"]), "u": us, "zero_as": rng.choice(["int", "fraction"])})
+        c["points"] = pts
+        return c
 
     def impl(self, case):
         from gcmpy.message_passing.equations.automated_equation import AutomatedEquation
@@ -64,8 +90,16 @@ class C15(Prop):
             val = AE.automated_equation(H, p, case["root"])
             AE2 = AutomatedEquation()
             comps = AE2.get_connected_subgraphs(H, case["root"])
+            numeric = []
+            for pt in case.get("points", []):
+                u = {}
+                for v in case["nodes"]:
+                    x = Fraction(pt["u"][str(v)])
+                    u[v] = (0 if pt["zero_as"] == "int" else Fraction(0)) if x == 0 else (1 if x == 1 and pt["zero_as"] == "int" else x)
+                Hn = mp.build_nx(case["nodes"], case["edges"], "num", u=u)
+                numeric.append(rs(Fraction(AutomatedEquation().automated_equation(Hn, Fraction(pt["phi"]), case["root"]))))
             return {"poly": mp.poly_canon(val), "components": sorted(sorted(c) for c in comps),
-                    "n_components": len(comps)}
+                    "n_components": len(comps), "numeric": numeric}
         AE = AutomatedEquation()
         vals, fresh = [], []
         for c in case["calls"]:
@@ -102,6 +136,12 @@ class C15(Prop):
                 f.append("expectation: automated equation differs from the exact bond-percolation expectation as a polynomial")
             if len(set(map(tuple, obs["components"]))) != obs["n_components"]:
                 f.append("enumeration: a connected vertex set is listed more than once")
+            for pt, got in zip(case.get("points", []), obs.get("numeric", [])):
+                want = exact_numeric(case["nodes"], [tuple(e) for e in case["edges"]], case["root"],
+                                     {v: Fraction(pt["u"][str(v)]) for v in case["nodes"]}, Fraction(pt["phi"]))
+                if abs(Fraction(got) - want) > Fraction(1, 10 ** 11):      # the accumulator of the real code is a float
+                    f.append(f"expectation-at-point: at phi = {pt['phi']}, u = {pt['u']} the value is {got}, the exact expectation is {want}")
+                    break
             return f
         for k, (v, fr) in enumerate(zip(obs["polys"], obs["fresh"])):
             if v != fr:
